@@ -2,6 +2,7 @@ package props
 
 import (
 	"fmt"
+	"regexp"
 	"sort"
 	"strings"
 
@@ -147,6 +148,41 @@ func shadowedGlobals(rec *core.Recorder, canon string, ctx map[string]interface{
 			inner(e)
 		}
 	}
+}
+
+var reBoundNames = regexp.MustCompile(`\{%-?\s*(?:for\s+([A-Za-z_]\w*)(?:\s*,\s*([A-Za-z_]\w*))?\s+in|set\s+([A-Za-z_]\w*)\s*=)`)
+
+// shadowingMacros gives one case in five macros that carry the names of the template's own variables (loop variables, set
+// variables, context entries): macros live beside variables, a macro that is never called renders nothing, and a name used
+// as a variable means the variable, so the reference output is unchanged.
+func shadowingMacros(rec *core.Recorder, canon string, src string, ctx map[string]interface{}) string {
+	if core.Hash64(canon, "macros")%5 != 0 || strings.Contains(src, "extends") {
+		return src
+	}
+	names := map[string]bool{}
+	for _, m := range reBoundNames.FindAllStringSubmatch(src, -1) {
+		for _, n := range m[1:] {
+			if n != "" {
+				names[n] = true
+			}
+		}
+	}
+	for k := range ctx {
+		if strings.Contains(src, k) {
+			names[k] = true
+		}
+	}
+	delete(names, "loop")
+	delete(names, "_self")
+	if len(names) == 0 {
+		return src
+	}
+	rec.Count("shadowing-macros-cases", 1)
+	var b strings.Builder
+	for _, n := range sortedKeys(names) {
+		b.WriteString("{% macro " + n + "() %}MACRO<" + n + ">{% endmacro %}")
+	}
+	return b.String() + src
 }
 
 func fmtTicks(t []int64) string {
